@@ -41,6 +41,29 @@ Proof.
 Qed.
 Print Assumptions C12_abort_no_store_partial.
 
+(* Commits that fail after any number of conflict retry rounds: for every sequence of rounds of
+   phase1Commit's loop (conflict in any logger state from createStore on, with the merge of the
+   other stores succeeding or not; an error return from any such state; the loop running out), if
+   the commit does not succeed the created store is gone and every other store is as before.
+   (The partial rollback between retries runs the createStore clean-up too and rewinds the state to
+   `unknown`; the final rollback then runs below createStore — both are in the model.) *)
+Theorem C12_abort_no_store_after_retries : forall rs c n,
+  Forall round_state_ok rs -> snd (commit_loop rs c [n]) = false ->
+  sr_get (fst (commit_loop rs c [n])) n = None /\
+  (forall m, m <> n -> sr_get (fst (commit_loop rs c [n])) m = sr_get c m).
+Proof. exact commit_loop_failed_no_store. Qed.
+Print Assumptions C12_abort_no_store_after_retries.
+
+(* Consequence of the same two facts, observed on the implementation as well: a creator whose
+   first round meets a conflict never commits, even when the conflict is mergeable ("store ... not
+   found (maybe deleted by rollback?)").  Not a violation of C12 (the store is gone, the commit
+   reports failure); recorded in design/C12.md. *)
+Theorem C12_creator_conflict_never_commits : forall s ok rest c n,
+  createStore <= s -> s <> addActivelyPersistedItem ->
+  snd (commit_loop (RoundConflict s ok :: rest) c [n]) = false.
+Proof. exact creator_conflict_never_commits. Qed.
+Print Assumptions C12_creator_conflict_never_commits.
+
 (* NewBtree's own failure path (StoreRepository.Add returned an error after doing part or all of
    its work): Remove is called before the roll back, nothing of the store is left. *)
 Theorem C12_newbtree_failure_leaves_nothing : forall c n, sr_get (sr_remove c n) n = None /\ count_name (sr_remove c n) n = 0%nat.
@@ -109,5 +132,7 @@ Example C12_nonvacuous :
   let c := [mkStore 1 4 12 9; mkStore 2 8 3 1] in
   sr_get c 1 <> None /\ sr_get (sr_remove c 1) 1 = None /\ sr_get (sr_remove c 1) 2 = Some (mkStore 2 8 3 1) /\
   sr_get (fst (new_btree (sr_remove c 1) 1 16)) 1 = Some (mkStore 1 16 0 0) /\
-  exists_after true 0 = true /\ exists_after false 0 = false /\ exists_after true 3 = false.
+  exists_after true 0 = true /\ exists_after false 0 = false /\ exists_after true 3 = false /\
+  commit_loop [RoundConflict commitUpdatedNodes true; RoundCommitted] (c ++ [fresh_store 7 4]) [7%N] = (c, false) /\
+  commit_loop [RoundCommitted] (c ++ [fresh_store 7 4]) [7%N] = (c ++ [fresh_store 7 4], true).
 Proof. cbv zeta. repeat split; try reflexivity. discriminate. Qed.
